@@ -61,6 +61,12 @@ class Contract:
         """extra obligations on every exit, normal (exc None) or exceptional: frame conditions"""
         return {}
 
+    def at_cut(self, E, a, old):
+        """obligations where a path of the function under contract ENDS at a loop cut (after the peeled first iteration, after the inv-step of
+        the arbitrary iteration): facts that cannot be undone later - "the caller's array has not been written" - so that a write made inside a
+        loop, possibly through a loop-carried alias of the caller's array that the havoc of the cut forgets, is not lost"""
+        return {}
+
     def closure_env(self, E, a):
         """for nested functions: dict of closure variables (defaults to the `free` entries of a)"""
         return {n: a[n] for n in self.free}
@@ -149,6 +155,13 @@ def verify_function(repo, contracts, c, registry=None, scope=None, opts=None):
             if not E.feasible(z3.BoolVal(True)) and False:
                 pass
             old = c.old(E, a)
+
+            def cut_hook(E_, why, a=a, old=old):
+                if E_.cur_func is not func:
+                    return                      # a cut inside an inlined callee: its caller goes on, the exit of the top function will be reached
+                for name, g in named(c.at_cut(E_, a, old)).items():
+                    E_.oblige("%s.%s.exit.%s" % (c.prop, qn, name), g, "frame")
+            E.cut_hook = cut_hook
             E._top_measure = c.decreases(E, a) if c.decreases is not None else None
             params = {k: v for k, v in a.items() if k not in c.free and not k.startswith("_")}
             env = None
